@@ -55,15 +55,8 @@ class GenMap:
             m = re.search(r'/\*@L:([^*]+)\*/', self.lines[i - 1])
             if m:
                 return m.group(1)
-        # look upward inside the same clause block
-        for i in range(l0 - 1, max(l0 - 15, 0), -1):
-            s = self.lines[i - 1]
-            m = re.search(r'/\*@L:([^*]+)\*/', s)
-            if m:
-                # only if no clause terminator (line ending with ',') in between: approximate
-                return m.group(1)
-            if s.strip() in ('requires', 'ensures', 'invariant', 'invariant_except_break', 'decreases') or s.strip().startswith('//@'):
-                break
+            if '/*@U*/' in self.lines[i - 1]:
+                return None
         return None
 
     def sentinel_at(self, l0, l1):
